@@ -45,13 +45,34 @@ func pathCase(id int, seed int64, out *json.Encoder) {
 	}
 	present := map[int]bool{}
 	lo, hi := 1, n
-	for k := lo; k <= hi; k++ {
-		// (half of the keys of layer >= 3 stay absent, so that probes can insert them between their neighbours)
-		if rng.Intn(10) != 0 && (intLayerRef(int64(k), bf) < 3 || rng.Intn(2) == 0) {
-			if err := m.Insert(ctx, k, k); err != nil {
-				panic(err)
+	plateau := id%6 == 0 && bf <= 4
+	if plateau {
+		// a tree held at height h by its keys' layers, with exactly bf^(h+1) entries (the size at which the grow rule looks at the
+		// top node without finding a reason to grow): every further insert of a key of a layer <= h keeps the height
+		h := 1 + rng.Intn(2)
+		want := 1
+		for i := 0; i <= h; i++ {
+			want *= int(bf)
+		}
+		hi = 0
+		for k := 1; len(present) < want; k++ {
+			hi = k
+			if intLayerRef(int64(k), bf) <= h && rng.Intn(4) != 0 {
+				if err := m.Insert(ctx, k, k); err != nil {
+					panic(err)
+				}
+				present[k] = true
 			}
-			present[k] = true
+		}
+	} else {
+		for k := lo; k <= hi; k++ {
+			// (half of the keys of layer >= 3 stay absent, so that probes can insert them between their neighbours)
+			if rng.Intn(10) != 0 && (intLayerRef(int64(k), bf) < 3 || rng.Intn(2) == 0) {
+				if err := m.Insert(ctx, k, k); err != nil {
+					panic(err)
+				}
+				present[k] = true
+			}
 		}
 	}
 	root, err := m.MakeRoot(ctx)
